@@ -23,7 +23,7 @@ func init() {
 	Register(&Profile{Prop: "C13", Fatal: []string{"C13."}, Run: func(rc *RunCtx) { runLocks(rc, true) }, Core: coreLocks})
 }
 
-const numInWit = 12
+const numInWit = 13
 const numOutWit = 9
 
 func coreLocks(tier string) []RunSpec {
@@ -221,14 +221,46 @@ func (lr *lockRun) inputWitness(T *Tape, c *LockCfg, secret string, wv int) (str
 	case 11:
 		label = "lock-key-only"
 		sigs = append(sigs, SignMsg(kr.Priv[c.LockKey], msg, 0))
+	case 12:
+		// only keys of the pubkeys tag sign (not the lock key): they are authorised only when a
+		// threshold is set
+		label = "cosigners-only"
+		n := threshold
+		if n < 1 {
+			n = 1
+		}
+		seenK := map[int]bool{}
+		for _, k := range c.Pubkeys {
+			if len(sigs) >= n {
+				break
+			}
+			if (!c.HTLC && k == c.LockKey) || seenK[k] {
+				continue
+			}
+			seenK[k] = true
+			sigs = append(sigs, SignMsg(kr.Priv[k], msg, 0))
+		}
+		if sigs == nil {
+			sigs = []string{}
+		}
 	}
 	w := map[string]any{}
 	if sigs != nil {
 		w["signatures"] = sigs
 	}
 	if c.HTLC {
-		pv := T.Pick("wit.preimage", 6, 1, 1, 1)
+		pv := T.Pick("wit.preimage", 8, 1, 1, 1, 1, 1, 1)
 		switch pv {
+		case 4:
+			// the right preimage followed by something that is not hex: has no hex decoding
+			w["preimage"] = c.Preimage + []string{"zz", " ", "\n", "g0"}[T.Choose("wit.suffix", 4)]
+			label += "+right-preimage-nonhex-suffix"
+		case 5:
+			w["preimage"] = c.Preimage + "a" // odd number of digits
+			label += "+right-preimage-odd-nibble"
+		case 6:
+			w["preimage"] = strings.ToUpper(c.Preimage) // same bytes, upper-case hex
+			label += "+right-preimage-uppercase"
 		case 0:
 			w["preimage"] = c.Preimage
 			label += "+right-preimage"
